@@ -19,6 +19,13 @@ const TVFS_FOLDER_SIZE_MASK: u32 = 0x7FFF_FFFF;
 const NODE_VALUE_MARKER: u8 = 0xFF;
 /// Path separator byte.
 const PATH_SEPARATOR: u8 = 0x00;
+/// Maximum folder nesting accepted by the parser.
+///
+/// Folder nodes are parsed recursively (and the resulting tree is dropped,
+/// cloned and rebuilt recursively), so nesting taken from untrusted input
+/// must be bounded. A folder costs only 5 bytes, which lets a 100 KB table
+/// nest 20 000 levels deep. Real path tables nest a few dozen levels at most.
+const MAX_FOLDER_DEPTH: usize = 512;
 
 /// Path table storing the recursive prefix tree and resolved file entries.
 #[derive(Debug, Clone)]
@@ -70,6 +77,7 @@ impl PathTable {
             &mut String::new(),
             &mut files,
             &mut root,
+            0,
         )?;
 
         Ok(Self {
@@ -112,7 +120,15 @@ fn parse_directory(
     current_path: &mut String,
     files: &mut Vec<PathFileEntry>,
     tree_node: &mut PathTreeNode,
+    depth: usize,
 ) -> TvfsResult<()> {
+    if depth > MAX_FOLDER_DEPTH {
+        return Err(TvfsError::InvalidPathNode(
+            start,
+            format!("folders nested deeper than {MAX_FOLDER_DEPTH} levels"),
+        ));
+    }
+
     let mut pos = start;
 
     while pos < end {
@@ -230,6 +246,7 @@ fn parse_directory(
                 &mut full_path.clone(),
                 files,
                 &mut child_tree,
+                depth + 1,
             )?;
 
             tree_node.children.push(child_tree);
